@@ -225,6 +225,64 @@ func (k *keepCtx) compact(obs *obSet) {
 					from = ia.X
 				}
 			}
+			if from == nil {
+				// a copy of the element: *local = *elem, &local written
+				if al, isAl := resolve(nil, e.Common().Args[1]).(*ssa.Alloc); isAl {
+					for _, ref := range *al.Referrers() {
+						if s2, isSt := ref.(*ssa.Store); isSt && s2.Addr == al {
+							if u, isU := s2.Val.(*ssa.UnOp); isU && u.Op == token.MUL {
+								if u2, isU2 := u.X.(*ssa.UnOp); isU2 && u2.Op == token.MUL {
+									if ia, isIA := u2.X.(*ssa.IndexAddr); isIA {
+										from, elem = ia.X, u2
+									}
+								}
+							}
+						}
+					}
+				}
+			}
+			// the position a kept entry has in the NEW file is recorded in the entry that stays in memory: Truncate cuts the
+			// file at entry.Offset
+			keyO := "Offset of each kept entry is its position in the new file in " + fname
+			if from != nil && (sameSliceVar(from, st.Val) || func() bool { _, t := tail(from); return t }()) {
+				var seekOK, other bool
+				for _, bb := range fn.Blocks {
+					for _, x := range bb.Instrs {
+						s2, isSt := x.(*ssa.Store)
+						if !isSt {
+							continue
+						}
+						fa, isFA := s2.Addr.(*ssa.FieldAddr)
+						if !isFA || fa.X != ssa.Value(elem) {
+							continue
+						}
+						if f := fieldOf(fa.X.Type(), fa.Field); f == nil || f.Name() != "Offset" {
+							continue
+						}
+						if ex, isEx := s2.Val.(*ssa.Extract); isEx && ex.Index == 0 {
+							if c, isC := ex.Tuple.(*ssa.Call); isC && calleeName(c.Common()) == "(*os.File).Seek" && len(c.Common().Args) == 3 &&
+								c.Common().Args[0] == unwrapIface(e.Common().Args[0]) && bb.Dominates(e.Block()) {
+								if off, okO := constIntOf(c.Common().Args[1]); okO && off == 0 {
+									if wh, okW := constIntOf(c.Common().Args[2]); okW && wh == 1 {
+										seekOK = true
+										continue
+									}
+								}
+							}
+						}
+						other = true
+					}
+				}
+				switch {
+				case seekOK && !other:
+					obs.ok(keyO, p.InstrPos(e), "the element that stays in memory receives Seek(0, io.SeekCurrent) of the file written to, before the entry is encoded there")
+				case other:
+					obs.undecided(keyO, p.InstrPos(e), "the Offset assigned to a kept entry is not recognised as the current position of the temporary file")
+				default:
+					obs.fail(keyO, p.InstrPos(e), "the kept entries that stay in memory do not receive their position in the new file: their Offset still refers to the old, longer file, "+
+						"so a later Truncate cuts the compacted file at the wrong place and overwritten entries come back on the next Replay", nil)
+				}
+			}
 			switch {
 			case from == nil:
 				obs.undecided(keyW, p.InstrPos(e), "the written entry is not an element of a slice", "entry: "+describe(nil, e.Common().Args[1]))
@@ -644,4 +702,11 @@ func (k *keepCtx) freshPlaceholderKeepsLabel(v ssa.Value, kept ssa.Value, index 
 	okIndex := got[k.indexFld] == ssa.Value(index) || (got[k.indexFld] != nil && ofOld(got[k.indexFld], k.indexFld))
 	okTerm := got[k.termFld] != nil && ofOld(got[k.termFld], k.termFld)
 	return okIndex && okTerm
+}
+
+func unwrapIface(v ssa.Value) ssa.Value {
+	if mi, ok := v.(*ssa.MakeInterface); ok {
+		return mi.X
+	}
+	return v
 }
